@@ -104,6 +104,87 @@ fn find_decl_id(v: &Value) -> Option<String> {
     }
 }
 
+/// interface -> interfaces it uses (transitively), by local identifier
+fn interface_uses(ast: &Value) -> BTreeMap<String, BTreeSet<String>> {
+    let mut direct: BTreeMap<String, BTreeSet<String>> = BTreeMap::new();
+    for st in ast["statements"].as_array().cloned().unwrap_or_default() {
+        let Some(i) = st.get("Type").and_then(|t| t.get("interface")) else { continue };
+        let name = i["id"]["string"].as_str().unwrap().to_string();
+        let mut set = BTreeSet::new();
+        for item in i["items"].as_array().cloned().unwrap_or_default() {
+            if let Some(u) = item.get("use") {
+                if let Some(p) = u["path"].get("ident").and_then(|x| x["string"].as_str()) {
+                    set.insert(p.to_string());
+                }
+            }
+        }
+        direct.insert(name, set);
+    }
+    let mut closed = direct.clone();
+    loop {
+        let mut changed = false;
+        for (k, v) in closed.clone() {
+            for u in v {
+                for w in direct.get(&u).cloned().unwrap_or_default() {
+                    changed |= closed.get_mut(&k).unwrap().insert(w);
+                }
+            }
+        }
+        if !changed {
+            break;
+        }
+    }
+    closed
+}
+
+/// worlds that `use` two types of one original name (one type, possibly reached through two interfaces) under two names
+fn worlds_using_a_type_twice(ast: &Value) -> BTreeSet<String> {
+    let mut out = BTreeSet::new();
+    for st in ast["statements"].as_array().cloned().unwrap_or_default() {
+        let Some(w) = st.get("Type").and_then(|t| t.get("world")) else { continue };
+        let mut seen = BTreeSet::new();
+        for item in w["items"].as_array().cloned().unwrap_or_default() {
+            if let Some(u) = item.get("use") {
+                let path = u["path"].get("ident").map(|i| i["string"].to_string()).unwrap_or_else(|| u["path"]["package"]["string"].to_string());
+                for it in u["items"].as_array().cloned().unwrap_or_default() {
+                    let _ = &path;
+                    if !seen.insert(it["id"]["string"].as_str().unwrap_or("").to_string()) {
+                        out.insert(w["id"]["string"].as_str().unwrap().to_string());
+                    }
+                }
+            }
+        }
+    }
+    out
+}
+
+/// worlds in which a `use` item follows the import (by path or through an included world) of an
+/// interface that has `use`s of its own
+fn worlds_using_after_a_using_import(ast: &Value, uses: &BTreeMap<String, BTreeSet<String>>) -> BTreeSet<String> {
+    let mut out = BTreeSet::new();
+    let mut importing_users: BTreeSet<String> = BTreeSet::new(); // worlds that import a using interface
+    for st in ast["statements"].as_array().cloned().unwrap_or_default() {
+        let Some(w) = st.get("Type").and_then(|t| t.get("world")) else { continue };
+        let name = w["id"]["string"].as_str().unwrap().to_string();
+        let mut seen_user = false;
+        for item in w["items"].as_array().cloned().unwrap_or_default() {
+            if let Some(i) = item.get("import").and_then(|i| i["path"].get("ident")).and_then(|i| i["string"].as_str()) {
+                seen_user |= uses.get(i).map(|u| !u.is_empty()).unwrap_or(false);
+            }
+            if let Some(i) = item.get("include").and_then(|i| i["world"].get("ident")).and_then(|i| i["string"].as_str()) {
+                seen_user |= importing_users.contains(i);
+            }
+            if item.get("use").is_some() && seen_user {
+                out.insert(name.clone());
+            }
+        }
+        if seen_user {
+            importing_users.insert(name);
+        }
+    }
+    out
+}
+
 pub struct CaseOut {
     pub viols: Vec<Viol>,
     pub interfaces: u64,
@@ -187,6 +268,9 @@ pub fn check_case(c: &WitCase) -> CaseOut {
         }
     }
     let explicit = explicit_items(&ast, &c.package, c.version.as_deref());
+    let uses = interface_uses(&ast);
+    let twice = worlds_using_a_type_twice(&ast);
+    let use_after = worlds_using_after_a_using_import(&ast, &uses);
     for w in &c.worlds {
         out.worlds += 1;
         let (Some(ea), Some(eb)) = (ca.exports.get(w), cb.exports.get(w)) else {
@@ -204,7 +288,10 @@ pub fn check_case(c: &WitCase) -> CaseOut {
         let (exp_i, exp_e) = explicit.get(w).cloned().unwrap_or_default();
         // one cause, several symptoms: a world that exports an interface together with the
         // interface it uses (wac re-imports the used interface instead of referring to the export)
-        let exports_dependency = wa.imports.keys().any(|n| !wbt.imports.contains_key(n) && wbt.exports.contains_key(n));
+        let local = |qualified: &String| qualified.split('/').nth(1).map(|x| x.split('@').next().unwrap().to_string());
+        let exported_locals: BTreeSet<String> = exp_e.iter().filter_map(local).collect();
+        let exports_dependency = wa.imports.keys().any(|n| !wbt.imports.contains_key(n) && wbt.exports.contains_key(n))
+            || exported_locals.iter().any(|b| uses.get(b).map(|u| u.iter().any(|a| exported_locals.contains(a))).unwrap_or(false));
         let before = out.viols.len();
         for (dir, ma, mb, exp) in [("import", &wa.imports, &wbt.imports, &exp_i), ("export", &wa.exports, &wbt.exports, &exp_e)] {
             // explicit names: present with the same name on both sides
@@ -238,6 +325,17 @@ pub fn check_case(c: &WitCase) -> CaseOut {
                 out.viols.push((format!("C05/world-item-type/{dir}/{t}"), format!("{}: world `{w}` {dir} `{n}`:\n wac: {sa}\n ref: {sb}\n{}", c.id, c.wac_text)));
             }
         }
+        if twice.contains(w) && out.viols.len() > before && out.viols[before..].iter().all(|(f, _)| f.starts_with("C05/world-import-missing/")) {
+            // one cause: a world that uses one resource of one interface under two names imports it once
+            let what = out.viols.drain(before..).map(|(f, w)| format!("{f}: {w}")).collect::<Vec<_>>().join(" || ");
+            out.viols.push(("C05/world-uses-one-type-under-two-names/import-missing".into(), what));
+        }
+        if use_after.contains(w) && out.viols.len() > before && out.viols[before..].iter().all(|(f, _)| f.starts_with("C05/world-item-type/")) {
+            // one cause: encoding the imported interface clears the world's table of used-type aliases,
+            // so a resource used afterwards is imported as a fresh resource
+            let what = out.viols.drain(before..).map(|(f, w)| format!("{f}: {w}")).collect::<Vec<_>>().join(" || ");
+            out.viols.push(("C05/world-use-after-import-of-a-using-interface/resource-identity".into(), what));
+        }
         if exports_dependency && out.viols.len() > before {
             let what = out.viols.drain(before..).map(|(f, w)| format!("{f}: {w}")).collect::<Vec<_>>().join(" || ");
             out.viols.push(("C05/world-exports-an-interface-together-with-the-interface-it-uses".into(), what));
@@ -265,7 +363,8 @@ pub fn run(args: &[String]) {
         ctx.finish(Map::new(), vec![]);
     }
     let tier = ctx.tier();
-    let cases = witgen::enumerate(tier);
+    let mut cases = witgen::enumerate(tier);
+    cases.extend(witgen::enumerate_worlds(tier));
     let outs: Vec<CaseOut> = cases.par_iter().map(check_case).collect();
     let mut samples = Samples::new(3);
     let (mut ni, mut nw, mut nitems, mut unspec, mut compared) = (0u64, 0u64, 0u64, 0u64, 0u64);
@@ -303,7 +402,7 @@ pub fn run(args: &[String]) {
     cov.insert("distinct_nontrivial".into(), json!(compared));
     cov.insert(
         "rule".into(),
-        json!("programs = packages of the bounded WIT enumeration (mc-core witgen), written once in the shared spelling (`include .. with` differs by one semicolon); each is encoded by wac (Document::parse -> resolve -> encode) and by wit-component; both artefacts are nested in one wrapper validated once; interfaces: mutual is_subtype_of; worlds: same explicit import/export names and equal canonical type per explicit item (one resource numbering per world per side)"),
+        json!("programs = packages of the bounded WIT enumeration (mc-core witgen), plus the world-shape product family (every ordered sequence of 1..3 distinct world items from a 17-item alphabet: world-level use / renamed use / use through a second interface, world-level record and alias, interface paths in both directions, function items over the latest named type, inline interfaces, include with and without `with`; over record and full-resource bases, thorough: 7 bases), written once in the shared spelling (`include .. with` differs by one semicolon); each is encoded by wac (Document::parse -> resolve -> encode) and by wit-component; both artefacts are nested in one wrapper validated once; interfaces: mutual is_subtype_of; worlds: same explicit import/export names and equal canonical type per explicit item (one resource numbering per world per side)"),
     );
     let _ = Tier::Quick;
     ctx.finish(
